@@ -122,7 +122,9 @@ def make_case(rnd, wd, shape, tmpdir_tokens_with_one_iteration=True, dated_first
                  b: {'kind': 'text', 'text': 'second ' + text_of(rnd, rnd.randint(1, 3), allow_specific=False)}}
     if 'o2' in shape:
         names['o2'] = rnd.choice(['data.png', 'blob.bin', 'image.jpg', 'archive.dat'])
-        files[names['o2']] = {'kind': 'binary', 'bytes': [rnd.randrange(256) for _ in range(rnd.randint(1, 40))] + [0, 255, 128]}
+        # sizes: small, and exact multiples of a typical block size
+        nbytes = rnd.choice([rnd.randint(1, 40), rnd.randint(1, 40), 4096 - 3, 8192 - 3])
+        files[names['o2']] = {'kind': 'binary', 'bytes': [rnd.randrange(256) for _ in range(nbytes)] + [0, 255, 128]}
     if 'o3' in shape:
         names['o3'] = '$TMPDIR/tmpout.txt'
         files[names['o3']] = {'kind': 'text', 'text': text_of(rnd, rnd.randint(1, 3), allow_specific=False)}
@@ -233,7 +235,11 @@ def set_behaviour(case, beh):
 def edit_first_line(text, rnd, how=None):
     """Change one character of the first (plain) line, or add / remove a line."""
     lines = text.split('\n')
-    how = how or rnd.choice(['char', 'char', 'addline', 'dropline'])
+    how = how or rnd.choice(['char', 'char', 'addline', 'dropline', 'nonascii'])
+    if how == 'nonascii':
+        # one character that an ASCII reading of the text cannot decode
+        lines[0] = lines[0] + rnd.choice(['\u00b2', '\u00a0', '\u00e9'])
+        return '\n'.join(lines)
     if how == 'char' or not text:
         if not lines[0]:
             lines[0] = 'X'
